@@ -98,6 +98,7 @@ class PathCtx:
         self.n_heavy = 0
         self.last_model = None
         self.check_div = False
+        self.reduce_powers = explorer.reduce_powers
         self.angle_inputs = {}
         self.div_zero = []
         self.atoms = []
@@ -416,8 +417,9 @@ class Explorer:
 
     def __init__(self, max_paths=400, wall_s=120.0, query_timeout_ms=20000, seed=0,
                  want_sample=True, rlimit=4000000, oneshot=False,
-                 light_timeout_ms=5000):
+                 light_timeout_ms=5000, reduce_powers=True):
         self.rlimit = rlimit
+        self.reduce_powers = reduce_powers
         self.light_timeout_ms = light_timeout_ms
         self.oneshot = oneshot
         self.max_paths = max_paths
